@@ -47,6 +47,8 @@ type Program struct {
 	loadTime, buildTime time.Duration
 	nPkgs, nFuncs       int
 	repo                string
+	nBodies             int
+	genBodies           []byte
 }
 
 func (p *Program) isTarget(pkg *ssa.Package) bool { return pkg != nil && p.targets[pkg] }
@@ -92,6 +94,11 @@ func loadProgram(repo, harnessDir string) (*Program, error) {
 			overlay[filepath.Join(sub.dst, "zz_verif_"+filepath.Base(f))] = b
 		}
 	}
+	gen, nBodies, err := genBodiesFile(repo)
+	if err != nil {
+		return nil, fmt.Errorf("body discovery: %v", err)
+	}
+	overlay[filepath.Join(repo, "zz_verif_gen_bodies.go")] = gen
 	cfg := &packages.Config{
 		Mode: packages.NeedName | packages.NeedFiles | packages.NeedCompiledGoFiles | packages.NeedImports |
 			packages.NeedDeps | packages.NeedTypes | packages.NeedSyntax | packages.NeedTypesInfo | packages.NeedTypesSizes | packages.NeedModule,
@@ -126,6 +133,8 @@ func loadProgram(repo, harnessDir string) (*Program, error) {
 		fnByName: map[string]*ssa.Function{}, typeCache: map[string]types.Type{},
 		maxDepth: 200, maxLoop: 4096, maxSteps: 3000000, maxAlloc: 1 << 16, maxThreads: 64, repo: repo}
 	p.loadTime, p.buildTime = loadT, time.Since(t1)
+	p.nBodies = nBodies
+	p.genBodies = gen
 	for _, sp := range prog.AllPackages() {
 		p.pkgs[sp.Pkg.Path()] = sp
 		p.nPkgs++
